@@ -59,13 +59,62 @@ def task(arg):
     ulp4 = 4 * np.spacing(max(abs(lo), abs(hi), 1e-300))
     for ref, func in itertools.product(REFS, ("tanh", "exp")):
         grid = vgrid(ref)
-        for route in ("registered-scheme-scalar", "registered-scheme-array", "committee-forces", "committee-energy", "no-committee-data-forces", "no-committee-data-energy"):
+        for route in ("registered-scheme-scalar", "registered-scheme-array", "committee-forces", "committee-forces-sign-disagreement", "committee-energy", "no-committee-data-forces", "no-committee-data-energy", "reference-changed-after-construction"):
             scheme = "energy" if route in ("committee-energy", "no-committee-data-energy", "registered-scheme-scalar") else "forces"
+            if route == "reference-changed-after-construction":
+                sim, atoms = make(lo, hi, ref * 7.0, "energy", func)
+                sim.reference_variance = ref  # the public attribute is changed by the user
+                sim.schemes["custom"] = lambda _a: ref
+                sim.scheme = "custom"
+                sim.update_delta()
+                counters["evaluations"] += 1
+                d = float(np.asarray(sim.delta))
+                if abs(d - (lo + span / 2)) > 1e-12 * max(1.0, abs(d)):
+                    V(f"C18/{func}/{route}/not-midpoint-at-reference", f"reference variance set to {ref} after construction: delta at that variance is {d!r}, midpoint {lo + span / 2}")
+                del sim.schemes["custom"]
+                sim.scheme = "energy"
+                atoms.get_potential_energy()
+                with warnings.catch_warnings():
+                    warnings.simplefilter("ignore")
+                    sim.update_delta()
+                counters["evaluations"] += 1
+                d = float(np.asarray(sim.delta))
+                if abs(d - (lo + span / 2)) > 1e-12 * max(1.0, abs(d)):
+                    V(f"C18/{func}/{route}/reference-variance-not-used", f"no committee data after changing the reference variance: delta {d!r}, midpoint {lo + span / 2}")
+                sim.close()
+                continue
             sim, atoms = make(lo, hi, ref, scheme, func)
             where0 = f"range=({lo},{hi}) ref={ref} update={func} route={route}"
             prev = None
             try:
+                if route == "committee-forces-sign-disagreement":
+                    m = np.array([[1.3, -0.7, 2.1], [-0.4, 0.9, -1.6], [0.8, 1.1, -0.5]]) * ref
+                    lastv = None
+                    for kk in (0.0, 0.5, 1.0, 2.0, 5.0, 20.0, 200.0):
+                        comm = np.stack([m - kk * np.abs(m), m, m + kk * np.abs(m)])  # members disagree on the sign for kk > 1
+                        atoms.get_potential_energy()
+                        atoms.calc.results["forces_comm"] = comm
+                        vr = np.std(comm, axis=0) / np.mean(np.abs(comm), axis=0)
+                        sim.update_delta()
+                        counters["evaluations"] += 1
+                        counters["nontrivial"] += 1
+                        d = np.asarray(sim.delta, dtype=float)
+                        if np.any(d < lo - ulp4) or np.any(d > hi + ulp4) or not np.all(np.isfinite(d)):
+                            V(f"C18/{func}/{route}/out-of-range", f"delta {js(d)}; spread factor {kk}; {where0}")
+                            break
+                        if lastv is not None and np.all(vr >= lastv[0] - 1e-15) and np.any(d > lastv[1] + ulp4):
+                            V(f"C18/{func}/{route}/increases-with-variance", f"committee spread grew (coefficient {js(lastv[0][0])} -> {js(vr[0])}) but delta rose {js(lastv[1][0])} -> {js(d[0])}; {where0}")
+                            break
+                        lastv = (vr, d)
+                    continue
                 if route.startswith("no-committee-data"):
+                    # first adapt delta away from the midpoint, then lose the committee data
+                    sim.schemes["custom"] = lambda _a: 0.0
+                    keep = sim.scheme
+                    sim.scheme = "custom"
+                    sim.update_delta()
+                    sim.scheme = keep
+                    del sim.schemes["custom"]
                     atoms.get_potential_energy()
                     with warnings.catch_warnings():
                         warnings.simplefilter("ignore")
